@@ -503,7 +503,41 @@ type SchedResult struct {
 	Trace      []string          `json:"trace,omitempty"`
 }
 
-var globals0 FP // fingerprint of all package-level variables at process start
+var globals0 FP                 // fingerprint of all package-level variables at process start
+var globalsZero map[string]bool // variables that held their type's zero value at process start
+var lateDone = map[string]bool{}
+
+// lateInit filters the names of changed package-level variables: a variable that held the zero
+// value of its type at process start and has now received a value for the first time is being
+// initialised late (the sync.Once pattern), not "modified after initialisation". It is accepted
+// once per process and its new fingerprint becomes the baseline; whether that first write is
+// properly synchronised is the race detector's call (which is why C14 runs in many short-lived
+// processes). Any further change is reported.
+func lateInit(changed []string, res *SchedResult) []string {
+	if len(changed) == 0 {
+		return nil
+	}
+	var out []string
+	var now *FP
+	for _, n := range changed {
+		if globalsZero[n] && !lateDone[n] {
+			lateDone[n] = true
+			if now == nil {
+				f := fpGlobals()
+				now = &f
+			}
+			for i, nm := range globals0.Names {
+				if nm == n {
+					globals0.Sums[i] = now.Sums[i]
+				}
+			}
+			res.Faults["late-initialised package-level variable (accepted once)"]++
+			continue
+		}
+		out = append(out, n)
+	}
+	return out
+}
 
 // runSched executes one schedsim plan: twin (alone) run, then the scheduled concurrent run.
 func runSched(pl *Plan, atomic bool, keepTrace bool) (res SchedResult) {
@@ -536,7 +570,7 @@ func runSched(pl *Plan, atomic bool, keepTrace bool) (res SchedResult) {
 	}
 	fpTwin := fpObjects(twin.names, twin.objs)
 	_ = fpTwin
-	if d := globals0.Diff(fpGlobals()); len(d) > 0 {
+	if d := lateInit(globals0.Diff(fpGlobals()), &res); len(d) > 0 {
 		res.Clause = "C14.shared-unchanged"
 		res.Witness = map[string]string{"changed": strings.Join(d, ","), "when": "sequential run of the plan's operations (package-level variable modified after initialisation)"}
 		return
@@ -607,7 +641,7 @@ func runSched(pl *Plan, atomic bool, keepTrace bool) (res SchedResult) {
 	if d := fp0.Diff(fpObjects(sw.names, sw.objs)); len(d) > 0 {
 		viol("C14.shared-unchanged", "changed", strings.Join(d, ","), "when", "after all tasks finished")
 	}
-	if d := globals0.Diff(fpGlobals()); len(d) > 0 {
+	if d := lateInit(globals0.Diff(fpGlobals()), &res); len(d) > 0 {
 		viol("C14.shared-unchanged", "changed", strings.Join(d, ","), "when", "after all tasks finished (package-level variable)")
 	}
 	rh := newHasher()
@@ -755,6 +789,7 @@ func schedInit() {
 	tblSets = setMenu()
 	initHotSites()
 	globals0 = fpGlobals()
+	globalsZero = zeroGlobals()
 }
 
 func schedWorker() {
@@ -1024,16 +1059,38 @@ func driveSched(kf *KnownFindings, t0 time.Time) int {
 func runSchedChildren(bin string, n int, tag string, capSec int) ([]*WorkerOut, *FoundViolation) {
 	tmp := *fTmp
 	workers := *fWorkers
-	type child struct {
-		cmd    *exec.Cmd
-		out    string
-		atomic bool
-		offset int
+	// The runs are cut into contiguous chunks, each executed by its own short-lived process, at
+	// most `workers` at a time. Many fresh processes matter: state that the library initialises
+	// lazily on first use exists once per process, so only the first plans of a process can see a
+	// race (or a difference) in that initialisation.
+	chunk := n / (workers * 12)
+	if chunk < 25 {
+		chunk = 25
 	}
-	start := func(k, offset int, atomic bool) *child {
-		out := filepath.Join(tmp, fmt.Sprintf("w-C14-%s-%d.json", tag, k))
-		args := []string{"-mode", "worker", "-prop", "C14", "-seed", fmt.Sprint(masterSeed()), "-runs", fmt.Sprint(n), "-stride", fmt.Sprint(workers), "-offset", fmt.Sprint(offset), "-out", out, "-verif", *fVerif, "-tmp", tmp}
-		if atomic {
+	if chunk > 2000 {
+		chunk = 2000
+	}
+	type job struct {
+		id, from, to int
+		atomic       bool
+	}
+	var queue []job
+	for a, id := 0, 0; a < n; a, id = a+chunk, id+1 {
+		b := a + chunk
+		if b > n {
+			b = n
+		}
+		queue = append(queue, job{id: id, from: a, to: b})
+	}
+	type child struct {
+		cmd *exec.Cmd
+		out string
+		j   job
+	}
+	start := func(j job) *child {
+		out := filepath.Join(tmp, fmt.Sprintf("w-C14-%s-%d.json", tag, j.id))
+		args := []string{"-mode", "worker", "-prop", "C14", "-seed", fmt.Sprint(masterSeed()), "-runs", fmt.Sprint(j.to), "-stride", "1", "-offset", fmt.Sprint(j.from), "-out", out, "-verif", *fVerif, "-tmp", tmp}
+		if j.atomic {
 			args = append(args, "-atomic")
 		}
 		cmd := exec.Command(bin, args...)
@@ -1043,27 +1100,54 @@ func runSchedChildren(bin string, n int, tag string, capSec int) ([]*WorkerOut, 
 		if err := cmd.Start(); err != nil {
 			infra("start worker: %v", err)
 		}
-		return &child{cmd, out, atomic, offset}
+		go func() { _ = lf }()
+		return &child{cmd, out, j}
 	}
 	type fin struct {
-		k   int
+		c   *child
 		err error
 	}
-	cs := make([]*child, workers)
 	done := make(chan fin, workers*4)
-	wait := func(k int) { go func(c *child) { done <- fin{k, c.cmd.Wait()} }(cs[k]) }
-	for k := 0; k < workers; k++ {
-		cs[k] = start(k, k, false)
-		wait(k)
+	running := 0
+	launch := func(j job) {
+		c := start(j)
+		running++
+		go func() { done <- fin{c, c.cmd.Wait()} }()
+	}
+	cleanup := func(c *child) {
+		os.Remove(c.out)
+		os.Remove(c.out + ".hashes")
+		os.Remove(c.out + ".log")
+		os.Remove(c.out + ".progress")
+		ms, _ := filepath.Glob(c.out + ".racelog.*")
+		for _, m := range ms {
+			os.Remove(m)
+		}
+	}
+	readOut := func(c *child) *WorkerOut {
+		var o WorkerOut
+		d, err := os.ReadFile(c.out)
+		if err != nil || json.Unmarshal(d, &o) != nil {
+			infra("C14 worker for runs [%d,%d) wrote no result", c.j.from, c.j.to)
+		}
+		o.Hashes = readHashes(c.out + ".hashes")
+		return &o
 	}
 	deadline := time.After(time.Duration(capSec) * time.Second)
 	var outs []*WorkerOut
 	var viol *FoundViolation
-	pending := workers
-	for pending > 0 {
+	for len(queue) > 0 || running > 0 {
+		for running < workers && len(queue) > 0 && viol == nil {
+			launch(queue[0])
+			queue = queue[1:]
+		}
+		if running == 0 {
+			break
+		}
 		select {
 		case f := <-done:
-			c := cs[f.k]
+			running--
+			c := f.c
 			code := 0
 			if f.err != nil {
 				if ee, ok := f.err.(*exec.ExitError); ok {
@@ -1074,26 +1158,19 @@ func runSchedChildren(bin string, n int, tag string, capSec int) ([]*WorkerOut, 
 			}
 			switch code {
 			case 0:
-				var o WorkerOut
-				d, err := os.ReadFile(c.out)
-				if err != nil || json.Unmarshal(d, &o) != nil {
-					infra("worker %d wrote no result", f.k)
-				}
-				o.Hashes = readHashes(c.out + ".hashes")
-				outs = append(outs, &o)
-				pending--
+				outs = append(outs, readOut(c))
 			case 4:
-				var o WorkerOut
-				d, err := os.ReadFile(c.out)
-				if err != nil || json.Unmarshal(d, &o) != nil {
-					infra("worker %d wrote no result", f.k)
-				}
-				if c.atomic {
+				o := readOut(c)
+				if c.j.atomic {
 					infra("C14 worker blocked even with operation-atomic quanta (run %d)", o.BlockedRun)
 				}
-				outs = append(outs, &o)
-				cs[f.k] = start(f.k, o.BlockedRun, true)
-				wait(f.k)
+				outs = append(outs, o)
+				// the rest of this chunk, and every chunk not yet started, with operation-atomic quanta:
+				// the library blocks on a primitive the simulator does not own
+				for i := range queue {
+					queue[i].atomic = true
+				}
+				queue = append([]job{{id: c.j.id + 100000, from: o.BlockedRun, to: c.j.to, atomic: true}}, queue...)
 			case 66:
 				pd, _ := os.ReadFile(c.out + ".progress")
 				var run int
@@ -1105,19 +1182,20 @@ func runSchedChildren(bin string, n int, tag string, capSec int) ([]*WorkerOut, 
 					text += string(d)
 				}
 				pl := genSchedPlan(masterSeed(), run)
-				v := &FoundViolation{Run: run, Plan: pl, V: Violation{Clause: "C14.race", Witness: map[string]string{"signature": raceSignature(text), "report": clip(text, 6000), "atomic": fmt.Sprint(c.atomic)}}}
+				v := &FoundViolation{Run: run, Plan: pl, V: Violation{Clause: "C14.race", Witness: map[string]string{"signature": raceSignature(text), "report": clip(text, 6000), "atomic": fmt.Sprint(c.j.atomic)}}}
 				if viol == nil || v.Run < viol.Run {
 					viol = v
 				}
-				pending--
 			default:
 				lg, _ := os.ReadFile(c.out + ".log")
-				infra("C14 worker %d (%s) exit %d\n%s", f.k, tag, code, tailStr(string(lg), 3000))
+				infra("C14 worker for runs [%d,%d) (%s) exit %d\n%s", c.j.from, c.j.to, tag, code, tailStr(string(lg), 3000))
+			}
+			cleanup(c)
+			if len(outs) > 0 && outs[len(outs)-1].Viol != nil && viol == nil {
+				// a plain-oracle violation: stop launching further chunks
+				queue = nil
 			}
 		case <-deadline:
-			for _, c := range cs {
-				_ = c.cmd.Process.Kill()
-			}
 			infra("watchdog: C14 workers (%s) exceeded %d s", tag, capSec)
 		}
 	}
